@@ -133,7 +133,7 @@ def run(module, cfg, name, root_text=None, workers=1, simulate=None, depth=None,
     cfgpath = os.path.join(d, module + ".cfg")
     with open(cfgpath, "w") as f:
         f.write(cfg)
-    cmd = ["java", "-XX:+UseParallelGC", "-Xmx" + heap, "-Xss64m", "-DTLA-Library=" + SPEC,
+    cmd = ["java", "-XX:+UseParallelGC", "-XX:ParallelGCThreads=2", "-Xmx" + heap, "-Xss64m", "-DTLA-Library=" + SPEC,
            "-cp", JAR + ":" + DEPS, "tlc2.TLC", "-workers", str(workers), "-noGenerateSpecTE",
            "-metadir", os.path.join(d, "md"), "-config", cfgpath]
     if not deadlock_check:
